@@ -28,7 +28,7 @@ def check(tier, seed):
                       "(on return without a RuntimeWarning the residual of the returned vector is <= atol); that the Chebyshev expansion converges, and how the residual tolerance "
                       "propagates to H_tilde, is not decided (bounded battery of C16 / C04 only)",
                       "dtype mixtures (numpy promotion rules)",
-                      "_group_close_energies and _kernel_pivot_rows (pivoted QR) internals (bounded battery of C16); direct_greens_function / _constrain_matrix are under contract "
+                      "the pivoted-QR fact behind _kernel_pivot_rows (external; bounded battery of C16); _group_close_energies is under contract (contracts/grouping.py); direct_greens_function / _constrain_matrix are under contract "
                       "(contracts/linalg_direct.py + PV.Direct.greens_solves: the returned vector solves (E - h) x = P v in the range of P, rows replaced taken from the LEFT kernel basis); "
                       "solve_sylvester_direct is under a "
                       "structural contract: every level is solved with the Green's function built for a member of its own degeneracy group and that group's kernel columns, row k of "
